@@ -11,6 +11,7 @@ with several simultaneous faults.
 import Gv.Model.Facts
 import Gv.Proofs.PermLemmas
 import Gv.Props.C16
+import Gv.Proofs.PathLemmas
 
 namespace Gv.Props.C09
 open Gv.Perm
@@ -123,5 +124,61 @@ theorem C09_history_independent {R} (gen : List Constraint.SrcFile → R) (tags 
 /-- non-vacuity: the natural numbers with ≤ are such an order, and sorting removes the order dependence -/
 example : LinOrd (fun a b : Nat => decide (a ≤ b)) :=
   ⟨fun a b => by simp; omega, fun a b c h1 h2 => by simp at *; omega, fun a b h1 h2 => by simp at *; omega⟩
+
+/-! ### relocation of the module (paths move with the module)
+
+`Path.NormalAbs r` : `r` is "/" followed by components that are non-empty, not ".", not ".." and '/'-free, separated by single
+slashes (what `filepath.Abs`/`os.Getwd` return, other than "/").  `Path.NoEscape q` : resolving `q` component by component never
+climbs above the directory it starts in.  `Path.relTail q` depends on `q` only. -/
+
+/-- **C09_relocation_join**: joining a relative path onto the module root gives the root followed by a tail that does not depend
+on the root; so moving the module from `r` to `r'` replaces the prefix `r` by `r'` and changes nothing else -/
+theorem C09_relocation_join (r r' q : Str.S) (hr : Path.NormalAbs r) (hr' : Path.NormalAbs r') (hq : Path.NoEscape q) :
+    Path.join2 r q = r ++ Path.relTail q ∧ Path.join2 r' q = r' ++ Path.relTail q :=
+  Path.join2_relocate r r' q hr hr' hq
+
+/-- the tail is "/" ++ `clean q`, or empty when `q` cleans to "." -/
+theorem C09_relocation_join_clean (r q : Str.S) (hr : Path.NormalAbs r) (hq : Path.NoEscape q) (hrel : Path.isAbs q = false) :
+    Path.join2 r q = if Path.clean q = ['.'] then r else r ++ '/' :: Path.clean q :=
+  Path.join2_root_clean r q hr hq hrel
+
+/-- `filepath.Abs` of a relative path under a relocated working directory -/
+theorem C09_relocation_abs (wd wd' q : Str.S) (hr : Path.NormalAbs wd) (hr' : Path.NormalAbs wd') (hq : Path.NoEscape q)
+    (hrel : Path.isAbs q = false) :
+    Path.abs wd q = wd ++ Path.relTail q ∧ Path.abs wd' q = wd' ++ Path.relTail q := by
+  simp only [Path.abs, hrel, Bool.false_eq_true, if_false]
+  exact Path.join2_relocate wd wd' q hr hr' hq
+
+/-- **C09_relocation_output_path**: the output path of a converter declared in `<root>/relDecl` with a relative `output:file f`
+is the root followed by a tail that is a function of `relDecl` and `f` only -/
+theorem C09_relocation_output_path (r r' relDecl f : Str.S) (hr : Path.NormalAbs r) (hr' : Path.NormalAbs r')
+    (hf : Path.isAbs f = false) (hne : Path.NoEscape (Path.lastSlashPrefix relDecl ++ f)) :
+    Layout.outputPath (r ++ '/' :: relDecl) f = r ++ Path.relTail (Path.lastSlashPrefix relDecl ++ f) ∧
+    Layout.outputPath (r' ++ '/' :: relDecl) f = r' ++ Path.relTail (Path.lastSlashPrefix relDecl ++ f) :=
+  ⟨Path.outputPath_root r relDecl f hr hf hne, Path.outputPath_root r' relDecl f hr' hf hne⟩
+
+/-- the package of a relative output file does not depend on where the declaring file is -/
+theorem C09_relocation_package (declFile declFile' pkg f : Str.S) (hf : Path.isAbs f = false) :
+    Layout.resolvePackage declFile pkg f = Layout.resolvePackage declFile' pkg f := by
+  simp [Layout.resolvePackage, hf]
+
+/-- non-vacuity -/
+example : Path.NormalAbs "/home/a/mod".toList ∧ Path.NormalAbs "/tmp/x/y".toList ∧
+    Path.NoEscape "pkg/../gen/./out.go".toList ∧ Path.isAbs "pkg/../gen/./out.go".toList = false ∧
+    Path.relTail "pkg/../gen/./out.go".toList = "/gen/out.go".toList ∧
+    Path.join2 "/home/a/mod".toList "pkg/../gen/./out.go".toList = "/home/a/mod/gen/out.go".toList ∧
+    Path.join2 "/tmp/x/y".toList "pkg/../gen/./out.go".toList = "/tmp/x/y/gen/out.go".toList := by decide
+
+/-- non-vacuity: `output:file ../gen/out.go` next to `pkg/sub/input.go` (the file setting alone escapes its start, the combined
+relative path does not) -/
+example : Path.NoEscape (Path.lastSlashPrefix "pkg/sub/input.go".toList ++ "../gen/out.go".toList) ∧
+    ¬ Path.NoEscape "../gen/out.go".toList ∧
+    Path.relTail (Path.lastSlashPrefix "pkg/sub/input.go".toList ++ "../gen/out.go".toList) = "/pkg/gen/out.go".toList ∧
+    Layout.outputPath "/home/a/mod/pkg/sub/input.go".toList "../gen/out.go".toList = "/home/a/mod/pkg/gen/out.go".toList ∧
+    Layout.outputPath "/tmp/x/y/pkg/sub/input.go".toList "../gen/out.go".toList = "/tmp/x/y/pkg/gen/out.go".toList := by decide
+
+/-- the hypothesis is needed: a path that climbs above the root sees the root's own components -/
+example : Path.join2 "/home/a/mod".toList "../../x".toList = "/home/x".toList ∧
+    Path.join2 "/tmp/x/y".toList "../../x".toList = "/tmp/x".toList := by decide
 
 end Gv.Props.C09
